@@ -3,6 +3,7 @@ package main
 import (
 	"bytes"
 	"context"
+	"crypto/sha256"
 	"encoding/json"
 	"fmt"
 	"os"
@@ -23,7 +24,9 @@ type StepCfg struct {
 	Method    string   `json:"method"` // run | record
 	Keys      []string `json:"keys"`   // pool key names, or "cert" / "cert-inter"; two entries = threshold 2
 	DSSE      bool     `json:"dsse"`
-	Multiline bool     `json:"multiline"` // the command prints several lines on stdout and stderr
+	Multiline bool     `json:"multiline"`     // the command prints several lines on stdout and stderr
+	BigStdout bool     `json:"big_stdout"`    // the command prints more than 1 MiB (seq 1 200000): the link is a large file
+	ManyProds int      `json:"many_products"` // the step also produces this many small files under gen/ (explicit mode, last step)
 }
 
 type ChainCfg struct {
@@ -46,13 +49,14 @@ type ChainCfg struct {
 	Names          []string  `json:"names"`      // artifact of step i (empty: f<i>.txt)
 	RerunStep      int       `json:"rerun_step"` // 1-based: this step is executed twice by the same functionary (0: none)
 	// directory shapes (empty: the plain default name)
-	WsName        string `json:"ws_name"`        // working directory of run / record
-	MetaName      string `json:"meta_name"`      // metadata directory (-d ../<name>) when MetaDir
-	WdName        string `json:"wd_name"`        // working directory of verify (the final products)
-	LinkDirName   string `json:"link_dir_name"`  // --link-dir ../<name>
-	LayoutName    string `json:"layout_name"`    // -l ../<name>
-	SymlinkCwd    bool   `json:"symlink_cwd"`    // verify's working directory is entered through a symlink (PWD = the symlink path)
-	TrailingSlash bool   `json:"trailing_slash"` // directory arguments spelled with a trailing slash
+	WsName         string `json:"ws_name"`         // working directory of run / record
+	MetaName       string `json:"meta_name"`       // metadata directory (-d ../<name>) when MetaDir
+	WdName         string `json:"wd_name"`         // working directory of verify (the final products)
+	LinkDirName    string `json:"link_dir_name"`   // --link-dir ../<name>
+	LayoutName     string `json:"layout_name"`     // -l ../<name>
+	FollowSymlinks bool   `json:"follow_symlinks"` // --follow-symlink-dirs on run / record; in directory mode a symlinked directory linked/ is recorded
+	SymlinkCwd     bool   `json:"symlink_cwd"`     // verify's working directory is entered through a symlink (PWD = the symlink path)
+	TrailingSlash  bool   `json:"trailing_slash"`  // directory arguments spelled with a trailing slash
 }
 
 func orDefault(s, d string) string {
@@ -196,6 +200,21 @@ func (c ChainCfg) features() []string {
 	if c.SymlinkCwd {
 		f = append(f, "symlink-cwd")
 	}
+	if c.FollowSymlinks {
+		f = append(f, "follow-symlink-dirs")
+	}
+	for _, s := range c.Steps {
+		if s.BigStdout {
+			f = append(f, "big-stdout")
+			break
+		}
+	}
+	for _, s := range c.Steps {
+		if s.ManyProds > 0 {
+			f = append(f, "many-products")
+			break
+		}
+	}
 	return f
 }
 
@@ -205,7 +224,7 @@ func (c ChainCfg) honestClass() string {
 	k := "verify/honest"
 	for _, f := range c.features() {
 		switch f {
-		case "dsse-links", "dsse-layout", "2signers", "multiline", "cert", "intermediate", "intermediate2", "odd-names", "rerun", "odd-dirs", "symlink-cwd":
+		case "dsse-links", "dsse-layout", "2signers", "multiline", "cert", "intermediate", "intermediate2", "odd-names", "rerun", "odd-dirs", "symlink-cwd", "normalize", "follow-symlink-dirs", "big-stdout", "many-products":
 			k += "+" + f
 		}
 	}
@@ -283,6 +302,7 @@ func randomDirs(r *lib.Rng, c *ChainCfg) {
 	}
 	c.SymlinkCwd = r.Chance(1, 4)
 	c.TrailingSlash = r.Chance(1, 4)
+	c.FollowSymlinks = r.Chance(1, 4)
 }
 
 // featuredChains: the histories that failed through the CLI before F6 / F9 / F18
@@ -358,6 +378,41 @@ func featuredChains(r *lib.Rng) []ChainCfg {
 			c.Names = []string{"x=y,z w.txt", "q\"uo,te.txt"}
 			c.DirMode = true
 			c.Steps[0].Method = "record"
+		}),
+		// links larger than 1 MiB: a long build log, thousands of products
+		mk(func(c *ChainCfg) { c.Steps[0].BigStdout = true }),
+		mk(func(c *ChainCfg) {
+			c.Steps[1].BigStdout = true
+			c.Steps[1].DSSE = true
+			c.Steps[1].Multiline = true
+			c.MetaDir = false
+		}),
+		mk(func(c *ChainCfg) { c.Steps[1].ManyProds = 9000; c.Lstrip = true }),
+		// --normalize-line-endings / --follow-symlink-dirs on every command, CRLF and CR files, run and record mixed
+		mk(func(c *ChainCfg) { c.Norm = true; c.Steps[1].Method = "record" }),
+		mk(func(c *ChainCfg) {
+			c.Norm = true
+			c.Steps[0].Method = "record"
+			c.Steps = append(c.Steps, StepCfg{Name: "package", Method: "record", Keys: []string{"rsa2048"}})
+		}),
+		mk(func(c *ChainCfg) {
+			c.Norm = true
+			c.FollowSymlinks = true
+			c.DirMode = true
+			c.Steps[1].Method = "record"
+		}),
+		mk(func(c *ChainCfg) {
+			c.FollowSymlinks = true
+			c.DirMode = true
+			c.Lstrip = true
+			c.Steps[0].Method = "record"
+			c.Steps[1].Method = "record"
+		}),
+		mk(func(c *ChainCfg) {
+			c.Norm = true
+			c.FollowSymlinks = true
+			c.Steps[1].Method = "record"
+			c.Steps[1].DSSE = true
 		}),
 		// directory shapes: '%' and printf verbs in the metadata directory; glob metacharacters, '%', spaces,
 		// braces, non-ASCII in the working directory / link directory / layout path; cwd entered through a symlink
@@ -700,7 +755,10 @@ func (w *world) shPath(name string) string { return shq("./" + w.prefix() + name
 // prints more and leaves one more file, so that its link is longer than the one written afterwards.
 func (w *world) stepCommand(i int, s StepCfg, noisy bool) string {
 	var c string
-	if i == 1 {
+	if i == 1 && w.cfg.Norm {
+		// CRLF and lone CR line ends: the recorded digest depends on --normalize-line-endings
+		c = fmt.Sprintf("printf 'alpha\\r\\nbeta\\rgamma\\n' > %s", w.shPath(w.fname(1)))
+	} else if i == 1 {
 		c = fmt.Sprintf("printf 'alpha\\nbeta\\n' > %s", w.shPath(w.fname(1)))
 	} else {
 		c = fmt.Sprintf("cat %s > %s; echo step%d >> %s", w.shPath(w.fname(i-1)), w.shPath(w.fname(i)), i, w.shPath(w.fname(i)))
@@ -710,6 +768,12 @@ func (w *world) stepCommand(i int, s StepCfg, noisy bool) string {
 	}
 	if s.Multiline {
 		c += "; echo line one; echo 'line \"two\"'; echo err one >&2; echo err two >&2"
+	}
+	if s.BigStdout {
+		c += "; seq 1 200000"
+	}
+	if s.ManyProds > 0 {
+		c += fmt.Sprintf("; mkdir -p %s; i=0; while [ $i -lt %d ]; do echo $i > %s/p$i.txt; i=$((i+1)); done", w.shPath("gen"), s.ManyProds, w.shPath("gen"))
 	}
 	if noisy {
 		c += "; i=0; while [ $i -lt 60 ]; do echo first execution, a lot more output $i; i=$((i+1)); done"
@@ -751,6 +815,9 @@ func (w *world) commonOpts(s StepCfg) []string {
 	if w.cfg.Norm {
 		o = append(o, "--normalize-line-endings")
 	}
+	if w.cfg.FollowSymlinks {
+		o = append(o, "--follow-symlink-dirs")
+	}
 	return o
 }
 
@@ -768,7 +835,7 @@ func (w *world) materialArgs(i int) []string {
 	}
 	return w.flag("m", "materials", w.prefix()+w.fname(i-1))
 }
-func (w *world) productArgs(i int, noisy bool) []string {
+func (w *world) productArgs(i int, s StepCfg, noisy bool) []string {
 	if w.cfg.DirMode {
 		if w.cfg.Lstrip {
 			return w.flag("p", "products", w.projDir())
@@ -776,6 +843,9 @@ func (w *world) productArgs(i int, noisy bool) []string {
 		return []string{"-p", "."}
 	}
 	out := w.flag("p", "products", w.prefix()+w.fname(i))
+	if s.ManyProds > 0 {
+		out = append(out, w.flag("p", "products", w.prefix()+"gen")...)
+	}
 	if noisy {
 		out = append(out, w.flag("p", "products", w.prefix()+firstRunExtra)...)
 	}
@@ -783,8 +853,16 @@ func (w *world) productArgs(i int, noisy bool) []string {
 }
 
 // expectedArtifacts: the names a link of step i must list (ground truth of the history)
-func (w *world) expectedArtifacts(i int, products, noisy bool) []string {
+func (w *world) expectedArtifacts(i int, s StepCfg, products, noisy bool) []string {
 	var out []string
+	if products {
+		for j := 0; j < s.ManyProds; j++ {
+			out = append(out, fmt.Sprintf("gen/p%d.txt", j))
+		}
+	}
+	if w.cfg.DirMode && w.cfg.FollowSymlinks {
+		out = append(out, "linked/s.txt")
+	}
 	if w.cfg.DirMode {
 		last := i - 1
 		if products {
@@ -808,6 +886,54 @@ func (w *world) expectedArtifacts(i int, products, noisy bool) []string {
 	return out
 }
 
+// normalizeLF: the property's reading of --normalize-line-endings (CRLF and lone CR become LF)
+func normalizeLF(b []byte) []byte {
+	b = bytes.ReplaceAll(b, []byte("\r\n"), []byte("\n"))
+	return bytes.ReplaceAll(b, []byte("\r"), []byte("\n"))
+}
+
+// showArtifacts renders name=digest pairs; long lists are summarised by count and a hash of the pairs
+func showArtifacts(pairs []string) string {
+	sort.Strings(pairs)
+	if len(pairs) <= 40 {
+		return fmt.Sprintf("%q", pairs)
+	}
+	h := sha256.Sum256([]byte(strings.Join(pairs, "\n")))
+	return fmt.Sprintf("[%d entries, digest %x]", len(pairs), h[:8])
+}
+
+// expectedPairs: name=sha256 of the named files of the workspace as they are now, computed here
+// (own normalisation, crypto/sha256), never by the library
+func (w *world) expectedPairs(names []string) string {
+	dir := filepath.Join(w.wsDir(), filepath.FromSlash(w.prefix()))
+	pairs := make([]string, 0, len(names))
+	for _, n := range names {
+		b, err := os.ReadFile(filepath.Join(dir, filepath.FromSlash(n)))
+		if err != nil {
+			pairs = append(pairs, n+"=unreadable")
+			continue
+		}
+		if w.cfg.Norm {
+			b = normalizeLF(b)
+		}
+		h := sha256.Sum256(b)
+		pairs = append(pairs, fmt.Sprintf("%s=%x", n, h[:6]))
+	}
+	return showArtifacts(pairs)
+}
+
+func actualPairs(m map[string]intoto.HashObj) string {
+	pairs := make([]string, 0, len(m))
+	for n, h := range m {
+		d := fmt.Sprint(h["sha256"])
+		if len(d) > 12 {
+			d = d[:12]
+		}
+		pairs = append(pairs, n+"="+d)
+	}
+	return showArtifacts(pairs)
+}
+
 // linkArtifacts: what the written link lists (loaded in-process)
 func linkArtifacts(path string) string {
 	return lib.Recover(func() string {
@@ -819,7 +945,7 @@ func linkArtifacts(path string) string {
 		if !ok {
 			return "not-a-link"
 		}
-		return fmt.Sprintf("materials=%q products=%q", lib.SortedKeys(l.Materials), lib.SortedKeys(l.Products))
+		return fmt.Sprintf("materials=%s products=%s", actualPairs(l.Materials), actualPairs(l.Products))
 	})
 }
 
@@ -926,7 +1052,7 @@ func (w *world) runStep(i int, s StepCfg, k *funcKey, noisy, rerun bool) {
 	if s.Method == "run" {
 		argv := append([]string{"run"}, kargs...)
 		argv = append(argv, w.materialArgs(i)...)
-		argv = append(argv, w.productArgs(i, noisy)...)
+		argv = append(argv, w.productArgs(i, s, noisy)...)
 		argv = append(argv, w.commonOpts(s)...)
 		argv = append(argv, "--", "sh", "-c", cmdline)
 		inv := w.cli(ws, argv...)
@@ -950,7 +1076,7 @@ func (w *world) runStep(i int, s StepCfg, k *funcKey, noisy, rerun bool) {
 		sh.Dir = ws
 		sh.Run()
 		argv = append([]string{"record", "stop"}, kargs...)
-		argv = append(argv, w.productArgs(i, noisy)...)
+		argv = append(argv, w.productArgs(i, s, noisy)...)
 		argv = append(argv, w.commonOpts(s)...)
 		inv = w.cli(ws, argv...)
 		_, still := listDir(w.linkDir)[want]
@@ -972,7 +1098,7 @@ func (w *world) runStep(i int, s StepCfg, k *funcKey, noisy, rerun bool) {
 		"name="+want+" loader=T", coqNameObs(s.Name, k.keyID))
 	// the link lists exactly the named files
 	w.put("link-artifacts"+sub, "artifacts in the link of "+s.Name+" by "+k.name+tag, nil, "", linkArtifacts(filepath.Join(w.linkDir, want)),
-		fmt.Sprintf("materials=%q products=%q", w.expectedArtifacts(i, false, noisy), w.expectedArtifacts(i, true, noisy)), "")
+		fmt.Sprintf("materials=%s products=%s", w.expectedPairs(w.expectedArtifacts(i, s, false, noisy)), w.expectedPairs(w.expectedArtifacts(i, s, true, noisy))), "")
 	if noisy {
 		// back to the state before the step: the second execution starts from the same materials
 		dir := filepath.Join(ws, filepath.FromSlash(w.prefix()))
@@ -1025,6 +1151,13 @@ func (w *world) buildLayout(expires time.Time) intoto.Layout {
 				st.ExpectedMaterials = [][]string{rule("MATCH", w.fname(i-1), "WITH", "PRODUCTS", "FROM", prev), rule("DISALLOW", "*")}
 				st.ExpectedProducts = [][]string{rule("CREATE", w.fname(i)), rule("DISALLOW", "*")}
 			}
+		}
+		if s.ManyProds > 0 {
+			st.ExpectedProducts = append([][]string{rule("ALLOW", "gen/*")}, st.ExpectedProducts...)
+		}
+		if cfg.DirMode && cfg.FollowSymlinks {
+			st.ExpectedMaterials = append([][]string{rule("ALLOW", "linked/*")}, st.ExpectedMaterials...)
+			st.ExpectedProducts = append([][]string{rule("ALLOW", "linked/*")}, st.ExpectedProducts...)
 		}
 		st.ExpectedCommand = []string{}
 		l.Steps = append(l.Steps, st)
@@ -1173,6 +1306,15 @@ func (w *world) runAll() (cases []lib.Case) {
 	} else {
 		w.linkDir = w.wsDir()
 	}
+	if cfg.FollowSymlinks && cfg.DirMode {
+		// a directory outside the workspace, reached through the symlink linked/
+		shared := filepath.Join(w.root, "shared")
+		writeFile(filepath.Join(shared, "s.txt"), []byte("shared\r\nfile\r"))
+		os.MkdirAll(filepath.Join(w.wsDir(), filepath.FromSlash(w.prefix())), 0o755)
+		if err := os.Symlink(shared, filepath.Join(w.wsDir(), filepath.FromSlash(w.prefix()), "linked")); err != nil {
+			panic(err)
+		}
+	}
 	if cfg.Odd && !cfg.DirMode {
 		// decoys: the pieces a comma-separated reading of the names would pick up
 		for _, nm := range cfg.Names {
@@ -1222,7 +1364,7 @@ func (w *world) runAll() (cases []lib.Case) {
 			continue
 		}
 		if cfg.Norm {
-			b = bytes.ReplaceAll(b, []byte("\n"), []byte("\r\n"))
+			b = bytes.ReplaceAll(normalizeLF(b), []byte("\n"), []byte("\r\n"))
 		}
 		writeFile(filepath.Join(final, w.fname(i)), b)
 	}
